@@ -3,6 +3,9 @@
 //!   LF cow <hex>                         -> <to_string hex> <to_cow hex> <is_quoted>
 //!   LF write <nl> <doc>                  -> <ok|err> <calls> <sink hex>
 //!   LF writef <nl> <k> <once|persist> <doc> -> same
+//!   LF writeo <nl> <k|-> <once|persist> <flags> <doc> -> same; <flags>: per link '-' | '0' | '1' =
+//!                                           set_add_newlines(false/true) is called before that link, one more
+//!                                           char for a call before the final finish()
 //!   LF rt <nl> <doc>                     -> write, then parse the output (same format as parse)
 //! <doc> = links joined by '|'; link = <targethex>(;<m>:<keyhex>:<val>)*, m = a|q (val hex) or u|h (val decimal); `_` = no links
 use crate::{guarded, hex, unhex, Ctx, Rng};
@@ -428,6 +431,84 @@ pub fn case_writef(cx: &mut Ctx, d: &Doc, nl: bool, k: usize, persist: bool, ful
     }
 }
 
+
+/// the writer driven as an API: `set_add_newlines` may be called again between links (flags, see the
+/// protocol comment) – a latched sink failure must survive every such call
+fn write_doc_sw(d: &Doc, nl0: bool, flags: &[u8], sink: &mut FaultSink) -> bool {
+    let mut w = LinkFormatWrite::new(sink);
+    w.set_add_newlines(nl0);
+    let mut inner_ok = true;
+    for (i, (t, attrs)) in d.iter().enumerate() {
+        match flags.get(i) {
+            Some(b'0') => w.set_add_newlines(false),
+            Some(b'1') => w.set_add_newlines(true),
+            _ => {}
+        }
+        let mut aw = w.link(t);
+        for a in attrs {
+            aw = match a {
+                AttrSpec::Plain(k, v) => aw.attr(k, v),
+                AttrSpec::Quoted(k, v) => aw.attr_quoted(k, v),
+                AttrSpec::U32(k, n) => aw.attr_u32(k, *n),
+                AttrSpec::U16(k, n) => aw.attr_u16(k, *n),
+            };
+        }
+        inner_ok = aw.finish().is_ok();
+    }
+    match flags.get(d.len()) {
+        Some(b'0') => w.set_add_newlines(false),
+        Some(b'1') => w.set_add_newlines(true),
+        _ => {}
+    }
+    let fin = w.finish().is_ok();
+    fin && (d.is_empty() || inner_ok)
+}
+
+pub fn case_writeo(cx: &mut Ctx, d: &Doc, nl0: bool, flags: &str, k: Option<usize>, persist: bool) -> usize {
+    let full = {
+        let mut sink = FaultSink::new(None, false);
+        let _ = guarded(|| write_doc_sw(d, nl0, flags.as_bytes(), &mut sink));
+        sink.buf
+    };
+    let line = format!(
+        "LF writeo {} {} {} {} {}",
+        nl0 as u8,
+        k.map(|k| k.to_string()).unwrap_or("-".into()),
+        if persist { "persist" } else { "once" },
+        flags,
+        doc_token(d)
+    );
+    let r = guarded(|| {
+        let mut sink = FaultSink::new(k, persist);
+        let ok = write_doc_sw(d, nl0, flags.as_bytes(), &mut sink);
+        (ok, sink.calls, sink.buf, sink.wrote_after_failure, sink.failed)
+    });
+    match r {
+        None => {
+            cx.case(&line, "panic");
+            cx.oracle_fail("C18", &line, "writer panicked");
+            0
+        }
+        Some((ok, calls, buf, after, failed)) => {
+            cx.case(&line, &format!("{} {} {}", if ok { "ok" } else { "err" }, calls, hex(buf.as_bytes())));
+            cx.nontrivial(&line);
+            if failed && ok {
+                cx.oracle_fail("C18", &line, "a sink call failed but the writer finally reports success");
+            }
+            if !failed && !ok {
+                cx.oracle_fail("C18", &line, "the sink never failed but the writer reports an error");
+            }
+            if after {
+                cx.oracle_fail("C18", &line, "text reached the sink after the failed call");
+            }
+            if !full.starts_with(&buf) || (!failed && buf != full) {
+                cx.oracle_fail("C18", &line, "sink content is not a prefix of the fault-free output");
+            }
+            calls
+        }
+    }
+}
+
 fn all_strings(alpha: &[char], maxlen: usize, f: &mut dyn FnMut(&str)) {
     fn rec(alpha: &[char], cur: &mut String, left: usize, f: &mut dyn FnMut(&str)) {
         f(cur);
@@ -670,6 +751,28 @@ pub fn run(cx: &mut Ctx) {
                 for k in 0..calls {
                     for persist in [false, true] {
                         case_writef(cx, &d, nl, k, persist, &full);
+                    }
+                }
+            }
+            // the newline option switched again in the middle of the document (and before finish):
+            // every fault position x once/persist x a few switch patterns
+            if nlinks >= 1 && nattrs <= 2 {
+                let n = nlinks + 1;
+                let pats: Vec<String> = vec![
+                    "1".repeat(n),
+                    "0".repeat(n),
+                    (0..n).map(|i| if i % 2 == 0 { '1' } else { '0' }).collect(),
+                    (0..n).map(|i| if i == n - 1 { '1' } else { '-' }).collect(),
+                    (0..n).map(|i| if i == 1 { '0' } else { '-' }).collect(),
+                ];
+                for flags in &pats {
+                    for nl in [false, true] {
+                        let calls = case_writeo(cx, &d, nl, flags, None, false);
+                        for k in 0..calls {
+                            for persist in [false, true] {
+                                case_writeo(cx, &d, nl, flags, Some(k), persist);
+                            }
+                        }
                     }
                 }
             }
